@@ -189,6 +189,7 @@ type tyCase struct {
 var tyTable = []tyCase{
 	{"ty.sm.k", "v", true}, {"ty.sm.nokey", nil, false}, {`ty.sm["nokey"]`, nil, false}, {"ty.sm['k']", "v", true}, {"ty.sm.empty", "", true},
 	{"ty.ss[1]", "y", true}, {"ty.ss[2]", nil, false}, {"ty.ss[-1]", nil, false}, {"ty.ss.0", "x", true},
+	{"ty.ss[18446744073709551616]", nil, false}, {"ty.ss[18446744073709551617]", nil, false}, {"ty.ss[9223372036854775808]", nil, false}, {"ty.arr[4294967297]", nil, false},
 	{"ty.arr[1]", 8, true}, {"ty.arr[2]", nil, false}, {"ty.arr[-1]", nil, false},
 	{"ty.p.name", "in", true}, {"ty.P.Name", "in", true}, {"ty.p.n", 3, true}, {"ty.p.hidden", nil, false}, {"ty.p.secret", nil, false}, {"ty.p.nofield", nil, false},
 	{"ty.nilp.name", nil, false}, {"ty.pp.name", "in", true},
@@ -223,7 +224,7 @@ func genC17(seed uint64, run int, tier string) *RunSpec {
 	st := &StackSpec{Names: c17Names}
 	ns := 1 + r.Intn(4)
 	for i := 0; i < ns; i++ {
-		d := DataSpec{Shape: Pick(r, []string{"map", "struct", "ptr", "nil", "structmap", "map", "struct", "rich", "richptr", "strmap", "intmap"}), Tag: fmt.Sprintf("r%d", i), Items: 2, Variant: i}
+		d := DataSpec{Shape: Pick(r, []string{"map", "struct", "ptr", "nil", "structmap", "map", "struct", "rich", "richptr", "strmap", "intmap", "ptrptr"}), Tag: fmt.Sprintf("r%d", i), Items: 2, Variant: i}
 		st.Roots = append(st.Roots, d)
 	}
 	n := 10 + r.Intn(50)
@@ -266,7 +267,7 @@ func genC17(seed uint64, run int, tier string) *RunSpec {
 			op.Name = name
 		case k < 78:
 			op.Op = "resolve"
-			op.Path = Pick(r, []string{"a.b", "a.c[0]", "a.c[2].d", "b[1]", "c.b", "a.c[9]", "a['b']", "user.name", "a.c[-1]", "zz.q", "a.b.c", "a['b c']", "a['bc']", "c['b c']", "c['bc']"})
+			op.Path = Pick(r, []string{"a.b", "a.c[0]", "a.c[2].d", "b[1]", "c.b", "a.c[9]", "a['b']", "user.name", "a.c[-1]", "a.c[18446744073709551616]", "a.c[18446744073709551618]", "zz.q", "a.b.c", "a['b c']", "a['bc']", "c['b c']", "c['bc']"})
 			if r.Chance(30) {
 				op.Path = fmt.Sprintf("a.p%d", r.Intn(400)) // fresh paths (path cache misses)
 			} else if r.Chance(35) {
@@ -326,6 +327,11 @@ func c17RootPlain(d DataSpec) (map[string]any, any) {
 		return nil, nil
 	case "struct", "ptr", "rich", "richptr", "strmap", "intmap":
 		return map[string]any{}, BuildData(d)
+	case "ptrptr": // a pointer to a pointer to the struct
+		dd := d
+		dd.Shape = "ptr"
+		p := BuildData(dd).(*PageData)
+		return map[string]any{}, &p
 	case "structmap": // what the render entry points build: the struct's JSON-tag map as root scope plus the struct
 		dd := d
 		dd.Shape = "struct"
